@@ -455,4 +455,381 @@ theorem onFrame_err {s : State} {sp : Space} {f : Frame} {e : ErrorCode}
         · exact appFrame_err h hl hw
         · cases h
 
+
+/-! ### every (covered) violation is rejected -/
+
+def Rejects (s : State) (sp : Space) (f : Frame) : Prop := ∃ c, s.onFrame sp f = .error c
+
+/-- the streams a peer has opened never exceed the advertised limit -/
+def NextLe (s : State) : Prop :=
+  s.next (!s.isServer) true ≤ s.remoteUni.latest ∧ s.next (!s.isServer) false ≤ s.remoteBidi.latest
+
+theorem onFrame_app_of_stream {s : State} {f : Frame} {sid : Nat} (h : frameStream f = some sid) :
+    s.onFrame .application f = s.appFrame f := by
+  cases f <;> simp [frameStream] at h <;> rfl
+
+theorem rejects_decode {s : State} {sp : Space} {f : Frame} {e : ErrorCode} (h : State.decodeCheck f = .error e) :
+    Rejects s sp f := by
+  refine ⟨e, ?_⟩
+  unfold State.onFrame; rw [h]
+
+theorem withStream_view {s : State} {sid : Nat} {st : Stream}
+    (hv : view s sid = some st) (hl : Live s) :
+    ∃ s', s.openIfNecessary sid = .ok s' ∧ s'.conn = s.conn
+      ∧ ∀ g : State → Stream → Except ErrorCode State, s.withStream sid g = g s' st := by
+  unfold view at hv
+  rcases open_cases s sid hl with ⟨s', ho, h1, _, _, _⟩ | ⟨ho, _, _⟩ | ⟨ho, _, _⟩
+  · rw [ho] at hv
+    simp only at hv
+    refine ⟨s', ho, h1, ?_⟩
+    intro g
+    unfold State.withStream
+    rw [ho]; simp only; rw [hv]
+  · rw [ho] at hv; cases hv
+  · rw [ho] at hv; cases hv
+
+theorem open_limit {s : State} {sid : Nat} (hl : Live s) (hn : NextLe s) (hloc : localInitiated s sid = false)
+    (hi : sidIndex sid ≥ advertisedStreams s sid) : s.openIfNecessary sid = .error .streamLimitError := by
+  have hne : ¬ sidServer sid = s.isServer := by simpa [localInitiated] using hloc
+  have hsv : sidServer sid = !s.isServer := by
+    cases h1 : sidServer sid <;> cases h2 : s.isServer <;> simp_all
+  unfold State.openIfNecessary
+  simp only [ne_eq, hne, not_false_eq_true, if_true, hl.1, Bool.false_eq_true, if_false]
+  unfold advertisedStreams at hi
+  by_cases hu : sidUni sid = true
+  · have h1 : sidIndex sid ≥ s.next (sidServer sid) (sidUni sid) := by
+      rw [hsv, hu]; have := hn.1; simp only [hu, if_true] at hi; omega
+    simp only [hu, if_true] at hi
+    rw [hu] at h1
+    simp [h1, hu, RemoteInitiated.onRemoteOpen, hi]
+  · have hu' : sidUni sid = false := by cases h : sidUni sid <;> simp_all
+    have h1 : sidIndex sid ≥ s.next (sidServer sid) (sidUni sid) := by
+      rw [hsv, hu']; have := hn.2; simp only [hu', Bool.false_eq_true, if_false] at hi; omega
+    simp only [hu', Bool.false_eq_true, if_false] at hi
+    rw [hu'] at h1
+    simp [h1, hu', RemoteInitiated.onRemoteOpen, hi]
+
+theorem open_state {s : State} {sid : Nat} (hloc : localInitiated s sid = true)
+    (hi : sidIndex sid ≥ s.next (sidServer sid) (sidUni sid)) : s.openIfNecessary sid = .error .streamStateError := by
+  have he : sidServer sid = s.isServer := by simpa [localInitiated] using hloc
+  unfold State.openIfNecessary
+  rw [he] at hi
+  simp only [he, ne_eq, not_true_eq_false, if_false]
+  simp [hi]
+
+theorem rejects_of_open_err {s : State} {f : Frame} {sid : Nat} {e : ErrorCode} (hf : frameStream f = some sid)
+    (ho : s.openIfNecessary sid = .error e) : Rejects s .application f := by
+  refine ⟨e, ?_⟩
+  rw [onFrame_app_of_stream hf]
+  cases f <;> simp [frameStream] at hf <;> subst hf <;> simp [State.appFrame, State.withStream, ho]
+
+/-- STREAM data on a stream in the `Receiving` state is refused whenever it crosses a limit or contradicts
+    the final size -/
+theorem onData_rejects {r : Recv} {c : ConnFc} {off : Nat} {d : List Nat} {fin : Bool}
+    (hst : r.state = .receiving) (hr : RInv r)
+    (hbad : off + d.length > maxVarInt
+      ∨ off + d.length > r.fc.latest
+      ∨ (off + d.length) - r.fc.acquired > c.latest - c.acquired
+      ∨ (∃ f, r.buf.final = some f ∧ fin = true ∧ off + d.length ≠ f)
+      ∨ (∃ f, r.buf.final = some f ∧ off + d.length > f)
+      ∨ (r.buf.final = none ∧ fin = true ∧ off + d.length < r.buf.maxRecv)) :
+    ∃ e, r.onData c off d fin = .error e := by
+  obtain ⟨r1, r2, r3, r4, r5, ⟨b1, b2, b3⟩, r7, r8⟩ := hr
+  obtain ⟨hs1, hs2⟩ := r7 hst
+  cases hres : r.onData c off d fin with
+  | error e => exact ⟨e, rfl⟩
+  | ok p =>
+    exfalso
+    unfold Recv.onData at hres
+    rw [hst] at hres
+    simp only at hres
+    split at hres
+    · cases hres
+    · rename_i hle
+      split at hres
+      · cases hres
+      · rename_i q hacq
+        split at hres
+        · cases hres
+        · cases hres
+        · rename_i buf hw
+          -- the write succeeded: read off what that means
+          have hwrite : (∀ f, r.buf.final = some f → off + d.length ≤ f ∧ (fin = true → off + d.length = f))
+              ∧ (r.buf.final = none → fin = true → r.buf.maxRecv ≤ off + d.length) := by
+            unfold Buf.write at hw
+            simp only at hw
+            split at hw
+            · cases hw
+            · split at hw
+              · rename_i f hf
+                split at hw
+                · rename_i he
+                  refine ⟨fun g hg => ?_, fun hn => (by rw [hn] at hf; cases hf)⟩
+                  rw [hf] at hg; injection hg with hg; subst hg; exact ⟨(by omega), fun _ => he⟩
+                · cases hw
+              · rename_i hf
+                split at hw
+                · rename_i hm
+                  exact ⟨fun g hg => (by rw [hf] at hg; cases hg), fun _ _ => hm⟩
+                · cases hw
+              · rename_i f hf
+                split at hw
+                · rename_i hge
+                  refine ⟨fun g hg => ?_, fun hn => (by rw [hn] at hf; cases hf)⟩
+                  rw [hf] at hg; injection hg with hg; subst hg; exact ⟨(by omega), fun h => (by cases h)⟩
+                · cases hw
+              · rename_i hf
+                exact ⟨fun g hg => (by rw [hf] at hg; cases hg), fun _ h => (by cases h)⟩
+          -- the acquisition succeeded
+          have hacq' : r.buf.final = none → off + d.length ≤ r.fc.latest
+              ∧ ¬ ((off + d.length) - r.fc.acquired > c.latest - c.acquired) := by
+            intro hn
+            unfold Recv.onDataAcquire at hacq
+            simp only [hn, Option.isNone_none, if_true] at hacq
+            unfold StreamFc.acquireUpTo ConnFc.acquire ConnFc.remaining at hacq
+            by_cases h1 : off + d.length > r.fc.latest
+            · simp [h1] at hacq
+            · by_cases h2 : off + d.length - r.fc.acquired > 0
+              · by_cases h3 : c.latest - c.acquired < off + d.length - r.fc.acquired
+                · simp [h1, h2, h3] at hacq
+                · exact ⟨(by omega), (by omega)⟩
+              · exact ⟨(by omega), (by omega)⟩
+          rcases hbad with h | h | h | ⟨f, hf, hfin, hne⟩ | ⟨f, hf, hgt⟩ | ⟨hf, hfin, hlt⟩
+          · omega
+          · cases hfn : r.buf.final with
+            | none => have := (hacq' hfn).1; omega
+            | some f => have := (hwrite.1 f hfn).1; have := b3 f hfn; omega
+          · cases hfn : r.buf.final with
+            | none => have := (hacq' hfn).2; omega
+            | some f => have := (hwrite.1 f hfn).1; have := b3 f hfn; omega
+          · exact hne ((hwrite.1 f hf).2 hfin)
+          · have := (hwrite.1 f hf).1; omega
+          · have := hwrite.2 hf hfin; omega
+
+theorem onReset_rejects {r : Recv} {c : ConnFc} {fs : Nat}
+    (hst : r.state = .receiving) (hr : RInv r)
+    (hbad : fs > r.fc.latest ∨ fs - r.fc.acquired > c.latest - c.acquired
+      ∨ (∃ f, r.buf.final = some f ∧ fs ≠ f)) :
+    ∃ e, r.onReset c fs = .error e := by
+  obtain ⟨r1, r2, r3, r4, r5, ⟨b1, b2, b3⟩, r7, r8⟩ := hr
+  obtain ⟨hs1, hs2⟩ := r7 hst
+  unfold Recv.onReset
+  rw [hst]
+  simp only
+  cases hfn : r.buf.final with
+  | some total =>
+    simp only
+    have := b3 total hfn
+    by_cases hne : fs ≠ total
+    · exact ⟨.finalSizeError, by simp [hne]⟩
+    · exfalso
+      have : fs = total := by omega
+      rcases hbad with h | h | ⟨f, hf, hne'⟩
+      · omega
+      · omega
+      · rw [hfn] at hf; injection hf with hf; omega
+  | none =>
+    simp only
+    cases ha : r.fc.acquireUpTo c fs with
+    | error e => exact ⟨e, rfl⟩
+    | ok p =>
+      exfalso
+      unfold StreamFc.acquireUpTo ConnFc.acquire ConnFc.remaining at ha
+      rcases hbad with h | h | ⟨f, hf, _⟩
+      · simp [h] at ha
+      · by_cases h1 : fs > r.fc.latest
+        · simp [h1] at ha
+        · have h2 : fs - r.fc.acquired > 0 := by omega
+          simp [h1, h2, h] at ha
+      · rw [hfn] at hf; cases hf
+
+
+theorem rejects_stream_data {s : State} {sid off : Nat} {d : List Nat} {fin : Bool} {st : Stream}
+    (hl : Live s) (hv : view s sid = some st) (hst : st.recv.state = .receiving) (hr : RInv st.recv)
+    (hbad : off + d.length > maxVarInt
+      ∨ off + d.length > st.recv.fc.latest
+      ∨ (off + d.length) - st.recv.fc.acquired > s.conn.latest - s.conn.acquired
+      ∨ (∃ f, st.recv.buf.final = some f ∧ fin = true ∧ off + d.length ≠ f)
+      ∨ (∃ f, st.recv.buf.final = some f ∧ off + d.length > f)
+      ∨ (st.recv.buf.final = none ∧ fin = true ∧ off + d.length < st.recv.buf.maxRecv)) :
+    Rejects s .application (.stream sid off d fin) := by
+  obtain ⟨s', _, hc, hws⟩ := withStream_view hv hl
+  obtain ⟨e, he⟩ := onData_rejects (c := s'.conn) (off := off) (d := d) (fin := fin) hst hr (by rw [hc]; exact hbad)
+  refine ⟨e, ?_⟩
+  rw [onFrame_app_of_stream (sid := sid) rfl]
+  simp only [State.appFrame]
+  rw [hws]; (try simp only); rw [he]
+
+theorem rejects_reset {s : State} {sid fs : Nat} {st : Stream}
+    (hl : Live s) (hv : view s sid = some st) (hst : st.recv.state = .receiving) (hr : RInv st.recv)
+    (hbad : fs > st.recv.fc.latest ∨ fs - st.recv.fc.acquired > s.conn.latest - s.conn.acquired
+      ∨ (∃ f, st.recv.buf.final = some f ∧ fs ≠ f)) :
+    Rejects s .application (.resetStream sid fs) := by
+  obtain ⟨s', _, hc, hws⟩ := withStream_view hv hl
+  obtain ⟨e, he⟩ := onReset_rejects (c := s'.conn) (fs := fs) hst hr (by rw [hc]; exact hbad)
+  refine ⟨e, ?_⟩
+  rw [onFrame_app_of_stream (sid := sid) rfl]
+  simp only [State.appFrame]
+  rw [hws]; (try simp only); rw [he]
+
+/-- the shapes of each violation class that the code (hence the model) does reject; the excluded shapes are
+    the `_counterexample` theorems of `Props/C04RecvFlow.lean` -/
+def Covered (s : State) (f : Frame) : Violation → Prop
+  | .streamDataLimit | .connDataLimit | .finalSizeChanged | .dataBeyondFinalSize | .streamOffsetOverflow =>
+    ∀ sid, frameStream f = some sid → ∃ st, view s sid = some st ∧ st.recv.state = .receiving ∧ RInv st.recv
+  | .finalSizeBelowReceived =>
+    (∃ sid o d, f = .stream sid o d true) ∧
+    ∀ sid, frameStream f = some sid → ∃ st, view s sid = some st ∧ st.recv.state = .receiving ∧ RInv st.recv
+  | .frameForSendOnlyStream =>
+    ∀ sid, frameStream f = some sid → sidIndex sid ≥ s.next (sidServer sid) (sidUni sid)
+  | .frameForReceiveOnlyStream => ∃ sid v, f = .maxStreamData sid v ∧ (view s sid).isSome = true
+  | .connectionIdLimit => False
+  | _ => True
+
+theorem covered_rejected {s : State} {sp : Space} {f : Frame} {v : Violation}
+    (hl : Live s) (hw : WFStreams s) (hn : NextLe s) (hv : commits s sp f v) (hc : Covered s f v) :
+    Rejects s sp f := by
+  have app_simple : ∀ {g : Frame} {e : ErrorCode}, State.decodeCheck g = .ok () → (∃ t, g.type = some t ∧ FrameTable .application t = true) →
+      s.appFrame g = .error e → Rejects s .application g := by
+    intro g e hd ⟨t, ht, hft⟩ ha
+    refine ⟨e, ?_⟩
+    unfold State.onFrame
+    rw [hd]; simp only; rw [ht]; simp only [hft]; exact ha
+  cases v with
+  | frameNotPermittedInPacket =>
+    obtain ⟨t, ht, hp⟩ := hv
+    cases hd : State.decodeCheck f with
+    | error e => exact rejects_decode hd
+    | ok u =>
+      refine ⟨.protocolViolation, ?_⟩
+      unfold State.onFrame
+      rw [hd]; simp only; rw [ht]; simp only
+      rw [frameTable_eq_rfc, hp]; rfl
+  | unknownFrameType =>
+    obtain ⟨tag, rfl⟩ := hv
+    exact rejects_decode (e := .protocolViolation) rfl
+  | maxStreamsTooLarge =>
+    obtain ⟨b, x, rfl, hx⟩ := hv
+    rw [two60] at hx
+    exact rejects_decode (e := .protocolViolation) (by simp [State.decodeCheck]; omega)
+  | streamsBlockedTooLarge =>
+    obtain ⟨b, x, rfl, hx⟩ := hv
+    rw [two60] at hx
+    exact rejects_decode (e := .protocolViolation) (by simp [State.decodeCheck]; omega)
+  | newConnectionIdLength =>
+    obtain ⟨seq, rpt, len, rfl, hx⟩ := hv
+    refine rejects_decode (e := .protocolViolation) ?_
+    simp only [State.decodeCheck]
+    split
+    · rfl
+    · split
+      · rfl
+      · omega
+  | newConnectionIdRetirePriorTo =>
+    obtain ⟨seq, rpt, len, rfl, hx⟩ := hv
+    refine rejects_decode (e := .protocolViolation) ?_
+    simp only [State.decodeCheck]
+    split
+    · rfl
+    · omega
+  | serverOnlyFrameFromClient =>
+    obtain ⟨rfl, hsrv, hf | hf⟩ := hv <;> subst hf
+    · exact app_simple (e := .protocolViolation) rfl ⟨_, rfl, by decide⟩ (by simp [State.appFrame, hsrv])
+    · exact app_simple (e := .protocolViolation) rfl ⟨_, rfl, by decide⟩ (by simp [State.appFrame, hsrv])
+  | retireUnissuedConnectionId =>
+    obtain ⟨rfl, seq, d, rfl, hx⟩ := hv
+    refine app_simple (e := .protocolViolation) rfl ⟨_, rfl, by decide⟩ ?_
+    simp only [State.appFrame]
+    split
+    · rfl
+    · simp [hx]
+  | retireCurrentConnectionId =>
+    obtain ⟨rfl, seq, rfl⟩ := hv
+    refine app_simple (e := .protocolViolation) rfl ⟨_, rfl, by decide⟩ ?_
+    simp only [State.appFrame]
+    split
+    · rfl
+    · split
+      · rfl
+      · simp
+  | streamLimit =>
+    obtain ⟨rfl, sid, hf, hloc, hi⟩ := hv
+    exact rejects_of_open_err hf (open_limit hl hn hloc hi)
+  | localStreamNotCreated =>
+    obtain ⟨rfl, sid, hf, hloc, hi⟩ := hv
+    exact rejects_of_open_err hf (open_state hloc hi)
+  | frameForSendOnlyStream =>
+    obtain ⟨rfl, sid, hf, hloc, _, _⟩ := hv
+    exact rejects_of_open_err hf (open_state hloc (hc sid hf))
+  | frameForReceiveOnlyStream =>
+    obtain ⟨rfl, sid, hf, hloc, hu, _⟩ := hv
+    obtain ⟨sid', x, rfl, hsome⟩ := hc
+    simp only [frameStream] at hf
+    injection hf with hf; subst hf
+    cases hvw : view s sid' with
+    | none => rw [hvw] at hsome; cases hsome
+    | some st =>
+      obtain ⟨s', ho, _, hws⟩ := withStream_view hvw hl
+      refine ⟨.streamStateError, ?_⟩
+      rw [onFrame_app_of_stream (sid := sid') rfl]
+      simp only [State.appFrame]
+      rw [hws]
+      -- the viewed stream has no send half
+      rcases open_cases s sid' hl with ⟨s'', ho', _, hsv, _, hwf⟩ | ⟨ho', _, _⟩ | ⟨ho', _, _⟩
+      · rw [ho] at ho'; injection ho' with ho'; subst ho'
+        have hlk : s'.lookup sid' = some st := by
+          unfold view at hvw; rw [ho] at hvw; exact hvw
+        have := hwf hw sid' st hlk
+        rw [hsv] at this
+        have hne : ¬ sidServer sid' = s.isServer := by simpa [localInitiated] using hloc
+        simp [this, hu, hne]
+      · rw [ho] at ho'; cases ho'
+      · rw [ho] at ho'; cases ho'
+  | streamOffsetOverflow =>
+    obtain ⟨rfl, sid, o, d, fin, rfl, hx⟩ := hv
+    obtain ⟨st, hvw, hst, hr⟩ := hc sid rfl
+    rw [two62] at hx
+    exact rejects_stream_data hl hvw hst hr (Or.inl hx)
+  | streamDataLimit =>
+    obtain ⟨rfl, sid, st0, hv0, hx⟩ := hv
+    rcases hx with ⟨o, d, fin, rfl, hx⟩ | ⟨fs, rfl, hx⟩
+    · obtain ⟨st, hvw, hst, hr⟩ := hc sid rfl
+      rw [hv0] at hvw; injection hvw with hvw; subst hvw
+      exact rejects_stream_data hl hv0 hst hr (Or.inr (Or.inl hx))
+    · obtain ⟨st, hvw, hst, hr⟩ := hc sid rfl
+      rw [hv0] at hvw; injection hvw with hvw; subst hvw
+      exact rejects_reset hl hv0 hst hr (Or.inl hx)
+  | connDataLimit =>
+    obtain ⟨rfl, sid, st0, hv0, hx⟩ := hv
+    rcases hx with ⟨o, d, fin, rfl, hx⟩ | ⟨fs, rfl, hx⟩
+    · obtain ⟨st, hvw, hst, hr⟩ := hc sid rfl
+      rw [hv0] at hvw; injection hvw with hvw; subst hvw
+      exact rejects_stream_data hl hv0 hst hr (Or.inr (Or.inr (Or.inl hx)))
+    · obtain ⟨st, hvw, hst, hr⟩ := hc sid rfl
+      rw [hv0] at hvw; injection hvw with hvw; subst hvw
+      exact rejects_reset hl hv0 hst hr (Or.inr (Or.inl hx))
+  | finalSizeChanged =>
+    obtain ⟨rfl, sid, st0, known, hv0, hk, hx⟩ := hv
+    rcases hx with ⟨o, d, rfl, hx⟩ | ⟨fs, rfl, hx⟩
+    · obtain ⟨st, hvw, hst, hr⟩ := hc sid rfl
+      rw [hv0] at hvw; injection hvw with hvw; subst hvw
+      exact rejects_stream_data hl hv0 hst hr (Or.inr (Or.inr (Or.inr (Or.inl ⟨known, hk, rfl, hx⟩))))
+    · obtain ⟨st, hvw, hst, hr⟩ := hc sid rfl
+      rw [hv0] at hvw; injection hvw with hvw; subst hvw
+      exact rejects_reset hl hv0 hst hr (Or.inr (Or.inr ⟨known, hk, hx⟩))
+  | dataBeyondFinalSize =>
+    obtain ⟨rfl, sid, st0, known, hv0, hk, o, d, fin, rfl, hx⟩ := hv
+    obtain ⟨st, hvw, hst, hr⟩ := hc sid rfl
+    rw [hv0] at hvw; injection hvw with hvw; subst hvw
+    exact rejects_stream_data hl hv0 hst hr (Or.inr (Or.inr (Or.inr (Or.inr (Or.inl ⟨known, hk, hx⟩)))))
+  | finalSizeBelowReceived =>
+    obtain ⟨rfl, sid, st0, hv0, hk, hx⟩ := hv
+    obtain ⟨⟨sid', o', d', hf'⟩, hc⟩ := hc
+    rcases hx with ⟨o, d, rfl, hx⟩ | ⟨fs, rfl, hx⟩
+    · obtain ⟨st, hvw, hst, hr⟩ := hc sid rfl
+      rw [hv0] at hvw; injection hvw with hvw; subst hvw
+      exact rejects_stream_data hl hv0 hst hr (Or.inr (Or.inr (Or.inr (Or.inr (Or.inr ⟨hk, rfl, hx⟩)))))
+    · cases hf'
+  | connectionIdLimit => exact hc.elim
+
 end Quic.Proofs.Lemmas.RecvViolations
